@@ -177,7 +177,17 @@ def worker_main(prop_id, tier, w, nworkers, seed, outfile):
                         return
                 elif budget_s and time.time() - t0 > budget_s:
                     return
-                oc = mod.run_case(case)
+                try:
+                    oc = mod.run_case(case)
+                except isolate.HarnessError as ex:
+                    if "did not finish" not in str(ex):
+                        raise
+                    # inconclusive case (time budget): never a violation; keep searching
+                    st["timeouts"] = st.get("timeouts", 0) + 1
+                    st.setdefault("timeout_notes", []).append(str(ex)[:200])
+                    if st["timeouts"] > 2:
+                        raise
+                    return
                 if state["failing"] is None:
                     account(case, oc)
                 fresh = judge(case, oc)
@@ -339,6 +349,11 @@ def run_check(prop_id, tier, seed, jobs):
             print("  violated: [%s] %s" % (v["sig"], v["text"]))
         print("VIOLATION property=%s replay=%s" % (prop_id, violation["replay"]))
         return 1
+    timeouts = sum(p.get("timeouts", 0) for p in parts)
+    if timeouts:
+        print("INCONCLUSIVE property=%s: %d case(s) hit the per-invocation time budget: %s" % (
+            prop_id, timeouts, [n for p in parts for n in p.get("timeout_notes", [])][:2]))
+        return 2
     return 0
 
 
